@@ -130,12 +130,27 @@ Proofs/Refine.vos Proofs/Refine.vok Proofs/Refine.required_vos: Proofs/Refine.v 
 Proofs/RefProps.vo Proofs/RefProps.glob Proofs/RefProps.v.beautified Proofs/RefProps.required_vo: Proofs/RefProps.v Model/Types.vo Model/Book.vo Model/Obs.vo Spec/RefBook.vo Proofs/Basic.vo Proofs/Ledger.vo
 Proofs/RefProps.vio: Proofs/RefProps.v Model/Types.vio Model/Book.vio Model/Obs.vio Spec/RefBook.vio Proofs/Basic.vio Proofs/Ledger.vio
 Proofs/RefProps.vos Proofs/RefProps.vok Proofs/RefProps.required_vos: Proofs/RefProps.v Model/Types.vos Model/Book.vos Model/Obs.vos Spec/RefBook.vos Proofs/Basic.vos Proofs/Ledger.vos
+Proofs/Volumes.vo Proofs/Volumes.glob Proofs/Volumes.v.beautified Proofs/Volumes.required_vo: Proofs/Volumes.v Model/Types.vo Model/Map.vo Model/Side.vo Model/Book.vo Model/Obs.vo Spec/RefBook.vo Proofs/Basic.vo Proofs/MapLemmas.vo Proofs/Refine.vo
+Proofs/Volumes.vio: Proofs/Volumes.v Model/Types.vio Model/Map.vio Model/Side.vio Model/Book.vio Model/Obs.vio Spec/RefBook.vio Proofs/Basic.vio Proofs/MapLemmas.vio Proofs/Refine.vio
+Proofs/Volumes.vos Proofs/Volumes.vok Proofs/Volumes.required_vos: Proofs/Volumes.v Model/Types.vos Model/Map.vos Model/Side.vos Model/Book.vos Model/Obs.vos Spec/RefBook.vos Proofs/Basic.vos Proofs/MapLemmas.vos Proofs/Refine.vos
+Proofs/Views.vo Proofs/Views.glob Proofs/Views.v.beautified Proofs/Views.required_vo: Proofs/Views.v Model/Types.vo Model/Map.vo Model/Side.vo Model/Book.vo Model/Obs.vo Spec/RefBook.vo Proofs/Basic.vo Proofs/MapLemmas.vo Proofs/Refine.vo Proofs/Volumes.vo
+Proofs/Views.vio: Proofs/Views.v Model/Types.vio Model/Map.vio Model/Side.vio Model/Book.vio Model/Obs.vio Spec/RefBook.vio Proofs/Basic.vio Proofs/MapLemmas.vio Proofs/Refine.vio Proofs/Volumes.vio
+Proofs/Views.vos Proofs/Views.vok Proofs/Views.required_vos: Proofs/Views.v Model/Types.vos Model/Map.vos Model/Side.vos Model/Book.vos Model/Obs.vos Spec/RefBook.vos Proofs/Basic.vos Proofs/MapLemmas.vos Proofs/Refine.vos Proofs/Volumes.vos
+Proofs/Reload.vo Proofs/Reload.glob Proofs/Reload.v.beautified Proofs/Reload.required_vo: Proofs/Reload.v Model/Types.vo Model/Map.vo Model/Side.vo Model/Book.vo Model/Obs.vo Spec/RefBook.vo Proofs/Basic.vo Proofs/MapLemmas.vo Proofs/Refine.vo Proofs/Volumes.vo
+Proofs/Reload.vio: Proofs/Reload.v Model/Types.vio Model/Map.vio Model/Side.vio Model/Book.vio Model/Obs.vio Spec/RefBook.vio Proofs/Basic.vio Proofs/MapLemmas.vio Proofs/Refine.vio Proofs/Volumes.vio
+Proofs/Reload.vos Proofs/Reload.vok Proofs/Reload.required_vos: Proofs/Reload.v Model/Types.vos Model/Map.vos Model/Side.vos Model/Book.vos Model/Obs.vos Spec/RefBook.vos Proofs/Basic.vos Proofs/MapLemmas.vos Proofs/Refine.vos Proofs/Volumes.vos
 Properties/C01.vo Properties/C01.glob Properties/C01.v.beautified Properties/C01.required_vo: Properties/C01.v Model/Types.vo Model/Map.vo Model/Side.vo Model/Book.vo Model/Obs.vo Spec/RefBook.vo Proofs/Ledger.vo Proofs/Refine.vo Proofs/RefProps.vo
 Properties/C01.vio: Properties/C01.v Model/Types.vio Model/Map.vio Model/Side.vio Model/Book.vio Model/Obs.vio Spec/RefBook.vio Proofs/Ledger.vio Proofs/Refine.vio Proofs/RefProps.vio
 Properties/C01.vos Properties/C01.vok Properties/C01.required_vos: Properties/C01.v Model/Types.vos Model/Map.vos Model/Side.vos Model/Book.vos Model/Obs.vos Spec/RefBook.vos Proofs/Ledger.vos Proofs/Refine.vos Proofs/RefProps.vos
+Properties/C02.vo Properties/C02.glob Properties/C02.v.beautified Properties/C02.required_vo: Properties/C02.v Model/Types.vo Model/Map.vo Model/Side.vo Model/Book.vo Model/Obs.vo Spec/RefBook.vo Proofs/Refine.vo Proofs/Volumes.vo Proofs/Views.vo Proofs/Reload.vo
+Properties/C02.vio: Properties/C02.v Model/Types.vio Model/Map.vio Model/Side.vio Model/Book.vio Model/Obs.vio Spec/RefBook.vio Proofs/Refine.vio Proofs/Volumes.vio Proofs/Views.vio Proofs/Reload.vio
+Properties/C02.vos Properties/C02.vok Properties/C02.required_vos: Properties/C02.v Model/Types.vos Model/Map.vos Model/Side.vos Model/Book.vos Model/Obs.vos Spec/RefBook.vos Proofs/Refine.vos Proofs/Volumes.vos Proofs/Views.vos Proofs/Reload.vos
 Properties/C05.vo Properties/C05.glob Properties/C05.v.beautified Properties/C05.required_vo: Properties/C05.v Model/Types.vo Model/Map.vo Model/Side.vo Model/Book.vo Model/Obs.vo Model/Rng.vo Model/Env.vo Spec/RefBook.vo Proofs/MapLemmas.vo Proofs/Refine.vo Proofs/EnvProps.vo
 Properties/C05.vio: Properties/C05.v Model/Types.vio Model/Map.vio Model/Side.vio Model/Book.vio Model/Obs.vio Model/Rng.vio Model/Env.vio Spec/RefBook.vio Proofs/MapLemmas.vio Proofs/Refine.vio Proofs/EnvProps.vio
 Properties/C05.vos Properties/C05.vok Properties/C05.required_vos: Properties/C05.v Model/Types.vos Model/Map.vos Model/Side.vos Model/Book.vos Model/Obs.vos Model/Rng.vos Model/Env.vos Spec/RefBook.vos Proofs/MapLemmas.vos Proofs/Refine.vos Proofs/EnvProps.vos
 Properties/C06.vo Properties/C06.glob Properties/C06.v.beautified Properties/C06.required_vo: Properties/C06.v Model/Types.vo Model/Book.vo Model/Obs.vo Spec/RefBook.vo Proofs/Refine.vo Proofs/RefProps.vo
 Properties/C06.vio: Properties/C06.v Model/Types.vio Model/Book.vio Model/Obs.vio Spec/RefBook.vio Proofs/Refine.vio Proofs/RefProps.vio
 Properties/C06.vos Properties/C06.vok Properties/C06.required_vos: Properties/C06.v Model/Types.vos Model/Book.vos Model/Obs.vos Spec/RefBook.vos Proofs/Refine.vos Proofs/RefProps.vos
+Properties/C07.vo Properties/C07.glob Properties/C07.v.beautified Properties/C07.required_vo: Properties/C07.v Model/Types.vo Model/Map.vo Model/Side.vo Model/Book.vo Model/Obs.vo Spec/RefBook.vo Proofs/Refine.vo Proofs/Volumes.vo Proofs/Views.vo Proofs/Reload.vo
+Properties/C07.vio: Properties/C07.v Model/Types.vio Model/Map.vio Model/Side.vio Model/Book.vio Model/Obs.vio Spec/RefBook.vio Proofs/Refine.vio Proofs/Volumes.vio Proofs/Views.vio Proofs/Reload.vio
+Properties/C07.vos Properties/C07.vok Properties/C07.required_vos: Properties/C07.v Model/Types.vos Model/Map.vos Model/Side.vos Model/Book.vos Model/Obs.vos Spec/RefBook.vos Proofs/Refine.vos Proofs/Volumes.vos Proofs/Views.vos Proofs/Reload.vos
